@@ -413,3 +413,65 @@ theorem nameDag_of_check (db : Db) (rank : Name → Nat) (h : nameDagB db rank =
   simpa using h2
 
 end EupsModel.Setup
+
+namespace EupsModel.Setup
+
+/-- the table interpreter never answers "not found" itself (a dependency that is not found is either swallowed or
+turned into an exception) -/
+theorem acts_ne_notFound (rec : Rec) (cfg : Cfg) (fwd : Bool) (depth : Nat) (noRec : Bool) (vro : List VroEnt) (d : Decl)
+    (l : List Act) : ∀ s s', acts rec cfg fwd depth noRec vro d l s ≠ .notFound s' := by
+  induction l with
+  | nil => intro s s'; simp [acts]
+  | cons a rest ih =>
+    intro s s'
+    by_cases hdep : ∃ n o j v x t, a = .dep n o j v x t
+    · obtain ⟨n, o, j, v, x, t, rfl⟩ := hdep
+      simp only [acts]
+      split
+      · exact ih s s'
+      · split
+        · exact ih _ s'
+        · simp
+        · split
+          · simp
+          · exact ih _ s'
+        · split
+          · simp
+          · exact ih _ s'
+    · have hnd : ∀ n o j v x t, a ≠ .dep n o j v x t := fun n o j v x t e => hdep ⟨n, o, j, v, x, t, e⟩
+      rw [acts_cons_nondep rec cfg fwd depth noRec vro d a rest s hnd]
+      exact ih _ s'
+
+/-- when `Eups.setup` returns False (product not found / not set up) nothing has been touched -/
+theorem setup_notFound_unchanged (cfg : Cfg) (fuel : Nat) (fwd : Bool) (depth : Nat) (noRec : Bool) (vro : List VroEnt)
+    (n : Name) (ver : Option VerReq) (vexpr : Option VExpr) (s s' : St)
+    (h : setup cfg fuel fwd depth noRec vro n ver vexpr s = .notFound s') : s' = s := by
+  cases fuel with
+  | zero => simp [setup_zero] at h
+  | succ k =>
+    cases fwd with
+    | false =>
+      rw [setup_succ_false] at h
+      cases hsp : setupProd cfg.db s.env n with
+      | none => rw [hsp] at h; simp at h; exact h.symm
+      | some d => rw [hsp] at h; exact absurd h (acts_ne_notFound _ _ _ _ _ _ _ _ _ _)
+    | true =>
+      rw [setup_succ_true] at h
+      cases hres : resolve cfg.db cfg.keep s.already n ver vexpr depth vro.length vro with
+      | none => rw [hres] at h; simp at h; exact h.symm
+      | error => rw [hres] at h; cases h
+      | found d reason =>
+        rw [hres] at h
+        simp only at h
+        unfold install at h
+        split at h
+        · exact absurd h (acts_ne_notFound _ _ _ _ _ _ _ _ _ _)
+        · split at h
+          · cases h
+          · split at h
+            · cases h
+            · exact absurd h (acts_ne_notFound _ _ _ _ _ _ _ _ _ _)
+            · exact absurd h (acts_ne_notFound _ _ _ _ _ _ _ _ _ _)
+            · exact absurd h (acts_ne_notFound _ _ _ _ _ _ _ _ _ _)
+
+end EupsModel.Setup
